@@ -422,7 +422,7 @@ pub fn main() {
         let r = engine::catch(|| exec(&case, &mut acc)).unwrap_or_else(|c| Err(format!("panic: {}", c.msg)));
         engine::finish_replay(PROP, p, r);
     }
-    let draws = args.scale(2, 10) as u32;
+    let draws = args.scale(4, 5) as u32;
     let mut g = vec![];
     let mut x = args.seed.wrapping_mul(0x9E37_79B9_7F4A_7C15) | 1;
     let mut rnd = move || {
